@@ -43,11 +43,12 @@ bool mate_in_one(Position& p)
     }
     return false;
 }
-void emit(FILE* o, Position& p, const char* src, long* n)
+void emit(FILE* o, Position& p, const char* src, long* n, bool skip_drawn = true)
 {
     MoveVec mv;
     mv.gen(p);
-    if (mv.n == 0 || p.is_draw()) return;
+    // (the draw test is the engine's own: it must not decide which of the constructed mates are searched)
+    if (mv.n == 0 || (skip_drawn && p.is_draw())) return;
     std::string ms;
     for (int i = 0; i < mv.n; ++i) ms += (i ? " " : "") + p.uci(mv.list[i]);
     fprintf(o, "%s|%s|%d|%d|%d|%s\n", p.fen().c_str(), ms.c_str(), mv.n, (int)p.is_in_check(p.color()), (int)mate_in_one(p), src);
@@ -316,6 +317,67 @@ int cmd_nearmate_pool(const Args& a)
                 emit(o, p2, "nm-zz-2", &n);
             }
         }
+    }
+    // ---- minimal mates: a cornered king hemmed in by one piece of its own, mated in one by king + one minor piece (or minor + pawn);
+    //      mates that exist only because the material IS sufficient (opposite bishops, knight v knight, ...)
+    long nmin = 0;
+    if (a.i("minimal", 0))
+    {
+        const long want = a.i("minimal", 0);
+        std::vector<std::string> found;
+        static const int corners[] = {0, 7, 56, 63};
+        const char strongk[] = {'B', 'N'};
+        const char weakk[] = {'B', 'N', 'P', 'R'};
+        for (int ci = 0; ci < 4; ++ci)
+            for (int adj = 0; adj < 64; ++adj)
+            {
+                int c = corners[ci];
+                if (adj == c || std::max(std::abs(adj % 8 - c % 8), std::abs(adj / 8 - c / 8)) != 1) continue;
+                for (int sk = 0; sk < 64; ++sk)
+                {
+                    if (std::max(std::abs(sk % 8 - c % 8), std::abs(sk / 8 - c / 8)) != 2) continue;
+                    for (int sp = 0; sp < 64; ++sp)
+                        for (char s1 : strongk)
+                            for (char w1 : weakk)
+                                for (int strong_white = 0; strong_white < 2; ++strong_white)
+                                {
+                                    if (sp == c || sp == adj || sp == sk || sk == adj) continue;
+                                    if (w1 == 'P' && (adj < 8 || adj >= 56)) continue;
+                                    char b[64];
+                                    memset(b, 0, sizeof b);
+                                    b[c] = strong_white ? 'k' : 'K';
+                                    b[adj] = strong_white ? (char)tolower(w1) : w1;
+                                    b[sk] = strong_white ? 'K' : 'k';
+                                    b[sp] = strong_white ? s1 : (char)tolower(s1);
+                                    std::string f;
+                                    for (int r = 7; r >= 0; --r)
+                                    {
+                                        int e = 0;
+                                        for (int k = 0; k < 8; ++k)
+                                        {
+                                            char ch = b[r * 8 + k];
+                                            if (!ch) e++;
+                                            else { if (e) f += char('0' + e); e = 0; f += ch; }
+                                        }
+                                        if (e) f += char('0' + e);
+                                        if (r) f += '/';
+                                    }
+                                    f += strong_white ? " w - - 0 1" : " b - - 0 1";
+                                    Position p(f);
+                                    if (p.is_in_check(!p.color()) || p.is_in_check(p.color())) continue;
+                                    if (mate_in_one(p)) found.push_back(f);
+                                }
+                }
+            }
+        std::shuffle(found.begin(), found.end(), rng);
+        for (auto& f : found)
+        {
+            if (nmin >= want) break;
+            Position p(f);
+            emit(o, p, "nm-minimal", &n, false);
+            nmin++;
+        }
+        fprintf(stderr, "nearmate-pool: %zu minimal mates in one exist in the enumerated shapes, %ld emitted\n", found.size(), nmin);
     }
     fclose(o);
     fprintf(stderr, "nearmate-pool: %ld lines; refuted %ld (of %ld tries), zugzwang %ld (of %ld tries)\n", n, nref, tries_ref, nzz, tries);
